@@ -16,19 +16,23 @@
 (*           diagnostic                                                    *)
 (*   broken  rule without expr: yaml/parse, no diagnostics                 *)
 (*   both    bare + regexp problems on one rule                            *)
-(* cfg: none (defaults) | same (every configured check warns) | mixed      *)
+(*   ovr     alert overriding the label `team` (the group may set it: grp) *)
+(* cfg: none (defaults) | same (every configured check warns; two blocks   *)
+(*      require the label team, so two jobs report the identical problem) *)
+(*      | mixed (the same checks at different severities)                  *)
+(* grp: the group carries labels team/tier which rules inherit or override *)
 (***************************************************************************)
 EXTENDS Naturals, Sequences, TLC, Json
 
-CONSTANTS MaxRules, Kinds, Cfgs, Twos
+CONSTANTS MaxRules, Kinds, Cfgs, Twos, Grps
 
-VARIABLES cfg, rules, two
-vars == <<cfg, rules, two>>
+VARIABLES cfg, rules, two, grp
+vars == <<cfg, rules, two, grp>>
 
-Init == cfg \in Cfgs /\ two \in Twos /\ rules = <<>>
-AddRule(k) == Len(rules) < MaxRules /\ rules' = Append(rules, k) /\ UNCHANGED <<cfg, two>>
+Init == cfg \in Cfgs /\ two \in Twos /\ grp \in Grps /\ rules = <<>>
+AddRule(k) == Len(rules) < MaxRules /\ rules' = Append(rules, k) /\ UNCHANGED <<cfg, two, grp>>
 Next == \E k \in Kinds : AddRule(k)
 Spec == Init /\ [][Next]_vars
 
-EmitCase == Len(rules) = 0 \/ PrintT(<<"CASE", ToJson([cfg |-> cfg, rules |-> rules, two |-> two])>>)
+EmitCase == Len(rules) = 0 \/ PrintT(<<"CASE", ToJson([cfg |-> cfg, rules |-> rules, two |-> two, grp |-> grp])>>)
 =============================================================================
